@@ -1,103 +1,257 @@
 package c16
 
 import (
+	"bufio"
 	"bytes"
 	"fmt"
+	"io"
 	"os"
 	"os/exec"
 	"strings"
+	"sync"
 	"time"
+
+	"verif/internal/vk"
 )
 
 // Child-process execution: immudb runs decoders of on-disk data in background
 // goroutines (indexers, tbtree insert helpers); a panic there cannot be
 // recovered by the caller and kills the process. Such targets run in a copy of
-// this test binary (env C16_CHILD set) so that a crash is observed as the death
-// of the child and attributed to the directory it was given.
+// this test binary (env C16_CHILD=serve): a long-lived worker that takes one
+// request per line on stdin and answers on stdout. When the worker dies, the
+// crash is attributed to the request it was serving, and a new worker starts.
 
-// childMain runs the scenario requested through the environment; false = normal test run.
+// ids whose exclusion matters inside child processes
+var allKnownIDs = []string{kfF2, kfF4, kfF16, kfF17, kfF18, kfF19, kfF20, kfF21, kfF22, kfF23, kfF24, kfF25}
+
+// isExcluded: vk.Excluded in the parent; in a child process (which runs no
+// probes) the list handed over by the parent. Exclusions applied inside a child
+// are printed and counted by the parent.
+func isExcluded(id string) bool {
+	if os.Getenv("C16_CHILD") == "" {
+		return vk.Excluded(id)
+	}
+	for _, x := range strings.Split(os.Getenv("C16_EXCLUDED"), ",") {
+		if x == id {
+			return true
+		}
+	}
+	return false
+}
+
+func countExcluded(id string) {
+	if os.Getenv("C16_CHILD") == "" {
+		vk.CountExcluded(id)
+		return
+	}
+	fmt.Printf("\nC16EXCL %s\n", id)
+}
+
+func oneLine(s string) string { return strings.ReplaceAll(s, "\n", " | ") }
+
+// childMain serves requests when the binary was started as a worker; false = normal test run.
 func childMain() bool {
-	mode := os.Getenv("C16_CHILD")
-	if mode == "" {
+	if os.Getenv("C16_CHILD") == "" {
 		return false
 	}
-	switch mode {
-	case "openread":
-		comp, dir := os.Getenv("C16_COMP"), os.Getenv("C16_DIR")
-		var opened bool
-		var err error
-		r := runStateful(func() { opened, err = openAndRead(comp, dir, storeKeys()) })
-		v := r.verdict("open + full read of a corrupted "+comp+" directory", diskReadCap)
-		es := ""
-		if err != nil {
-			es = err.Error()
+	sc := bufio.NewScanner(os.Stdin)
+	sc.Buffer(make([]byte, 1<<20), 1<<24)
+	for sc.Scan() {
+		req := map[string]string{}
+		for _, kv := range strings.Split(sc.Text(), "\t") {
+			if i := strings.IndexByte(kv, '='); i > 0 {
+				req[kv[:i]] = kv[i+1:]
+			}
 		}
-		fmt.Printf("\nC16CHILD opened=%v\nC16ERR %s\nC16VERDICT %s\nC16END\n", opened, oneLine(es), oneLine(v))
-	case "indexrow":
-		childIndexRow()
-	default:
-		fmt.Printf("C16CHILD unknown mode %q\n", mode)
-		os.Exit(3)
+		switch req["mode"] {
+		case "openread":
+			comp, dir := req["comp"], req["dir"]
+			var opened bool
+			var err error
+			r := runStateful(func() { opened, err = openAndRead(comp, dir, storeKeys()) })
+			es := ""
+			if err != nil {
+				es = err.Error()
+			}
+			answer(opened, es, r.verdict("open + full read of a corrupted "+comp+" directory", diskReadCap))
+		case "indexrow":
+			childIndexRow(req["rowval"])
+		default:
+			answer(false, "unknown mode", "")
+		}
 	}
 	os.Exit(0)
 	return true
 }
 
-func oneLine(s string) string { return strings.ReplaceAll(s, "\n", " | ") }
+func answer(opened bool, err, verdict string) {
+	fmt.Printf("\nC16CHILD opened=%v\nC16ERR %s\nC16VERDICT %s\nC16END\n", opened, oneLine(err), oneLine(verdict))
+}
 
 type childResult struct {
-	died    bool   // the process did not finish the scenario
+	died    bool   // the worker did not finish the request
 	crash   string // panic / fatal error excerpt
 	opened  bool
 	err     string
 	verdict string
 }
 
-// runChild re-executes the test binary in child mode.
-func runChild(mode string, env map[string]string) childResult {
+type syncBuffer struct {
+	mu sync.Mutex
+	b  bytes.Buffer
+}
+
+func (s *syncBuffer) Write(p []byte) (int, error) {
+	s.mu.Lock()
+	defer s.mu.Unlock()
+	if s.b.Len() > 4<<20 {
+		s.b.Reset()
+	}
+	return s.b.Write(p)
+}
+
+func (s *syncBuffer) String() string {
+	s.mu.Lock()
+	defer s.mu.Unlock()
+	return s.b.String()
+}
+
+type worker struct {
+	cmd   *exec.Cmd
+	in    io.WriteCloser
+	lines chan string
+	errb  *syncBuffer
+}
+
+var (
+	workerMu sync.Mutex
+	theWork  *worker
+)
+
+func startWorker() (*worker, error) {
+	var ex []string
+	for _, id := range allKnownIDs {
+		if vk.Excluded(id) {
+			ex = append(ex, id)
+		}
+	}
 	cmd := exec.Command(os.Args[0], "-test.run=^$")
-	cmd.Env = append(os.Environ(), "C16_CHILD="+mode)
-	for k, v := range env {
-		cmd.Env = append(cmd.Env, k+"="+v)
+	cmd.Env = append(os.Environ(), "C16_CHILD=serve", "C16_EXCLUDED="+strings.Join(ex, ","))
+	in, err := cmd.StdinPipe()
+	if err != nil {
+		return nil, err
 	}
-	var out, errb bytes.Buffer
-	cmd.Stdout, cmd.Stderr = &out, &errb
+	out, err := cmd.StdoutPipe()
+	if err != nil {
+		return nil, err
+	}
+	w := &worker{cmd: cmd, in: in, lines: make(chan string, 64), errb: &syncBuffer{}}
+	cmd.Stderr = w.errb
 	if err := cmd.Start(); err != nil {
-		return childResult{died: true, crash: "cannot start child: " + err.Error()}
+		return nil, err
 	}
-	done := make(chan error, 1)
-	go func() { done <- cmd.Wait() }()
-	var werr error
-	select {
-	case werr = <-done:
-	case <-time.After(3 * hangBound):
-		cmd.Process.Kill()
-		<-done
-		return childResult{died: true, crash: fmt.Sprintf("child did not finish within %s", 3*hangBound)}
+	go func() {
+		sc := bufio.NewScanner(out)
+		sc.Buffer(make([]byte, 1<<20), 1<<24)
+		for sc.Scan() {
+			w.lines <- sc.Text()
+		}
+		close(w.lines)
+	}()
+	return w, nil
+}
+
+func (w *worker) kill() {
+	w.in.Close()
+	if w.cmd.Process != nil {
+		w.cmd.Process.Kill()
+	}
+	go func() {
+		for range w.lines {
+		}
+	}()
+	w.cmd.Wait()
+}
+
+// runChild sends one request to the worker (starting it when needed).
+func runChild(mode string, args map[string]string) childResult {
+	workerMu.Lock()
+	defer workerMu.Unlock()
+	if theWork == nil {
+		w, err := startWorker()
+		if err != nil {
+			return childResult{died: true, crash: "cannot start the worker process: " + err.Error()}
+		}
+		theWork = w
+	}
+	w := theWork
+	line := "mode=" + mode
+	for k, v := range args {
+		line += "\t" + k + "=" + v
+	}
+	if _, err := io.WriteString(w.in, line+"\n"); err != nil {
+		w.kill()
+		theWork = nil
+		return childResult{died: true, crash: "worker process is gone: " + err.Error() + " " + crashExcerpt(w.errb.String())}
 	}
 	var res childResult
-	o := out.String()
-	if i := strings.Index(o, "C16CHILD "); i >= 0 && strings.Contains(o, "C16END") {
-		for _, l := range strings.Split(o[i:], "\n") {
+	var seen []string
+	deadline := time.NewTimer(3 * hangBound)
+	defer deadline.Stop()
+	for {
+		select {
+		case l, ok := <-w.lines:
+			if !ok {
+				// the worker died while serving this request
+				w.cmd.Wait()
+				theWork = nil
+				res.died = true
+				res.crash = crashExcerpt(w.errb.String() + "\n" + strings.Join(seen, "\n"))
+				if res.crash == "" {
+					res.crash = "worker exited: " + lastBytes(w.errb.String(), 600)
+				}
+				return res
+			}
+			seen = append(seen, l)
 			switch {
+			case strings.HasPrefix(l, "C16EXCL "):
+				vk.CountExcluded(strings.TrimPrefix(l, "C16EXCL "))
 			case strings.HasPrefix(l, "C16CHILD "):
 				res.opened = strings.Contains(l, "opened=true")
 			case strings.HasPrefix(l, "C16ERR "):
 				res.err = strings.TrimPrefix(l, "C16ERR ")
 			case strings.HasPrefix(l, "C16VERDICT "):
 				res.verdict = strings.TrimPrefix(l, "C16VERDICT ")
+			case l == "C16END":
+				if res.verdict != "" {
+					// a hung or bloated worker is not reused
+					w.kill()
+					theWork = nil
+				}
+				return res
 			}
-		}
-		if werr == nil {
-			return res
+		case <-deadline.C:
+			w.kill()
+			theWork = nil
+			return childResult{died: true, crash: fmt.Sprintf("worker did not answer within %s", 3*hangBound)}
 		}
 	}
-	res.died = true
-	res.crash = crashExcerpt(errb.String() + "\n" + o)
-	if res.crash == "" {
-		res.crash = fmt.Sprintf("child exited with %v", werr)
+}
+
+func stopWorker() {
+	workerMu.Lock()
+	defer workerMu.Unlock()
+	if theWork != nil {
+		theWork.kill()
+		theWork = nil
 	}
-	return res
+}
+
+func lastBytes(s string, n int) string {
+	if len(s) > n {
+		return s[len(s)-n:]
+	}
+	return s
 }
 
 // crashExcerpt keeps the panic message and the first frames of the crashing goroutine.
